@@ -76,6 +76,17 @@ pub struct LifeM {
     /// sector numbers ever successfully committed (C04: allocated at most once)
     pub ever: BTreeSet<u64>,
     pub frozen: bool,
+    /// a nested send of an earlier tick was failed by injection: the sector model is no longer
+    /// maintained; only the oracles that need no model are evaluated
+    #[serde(default)]
+    pub recovery: bool,
+    /// at least one un-faulted tick has run since the injected failure
+    #[serde(default)]
+    pub recovery_settled: bool,
+    /// the injected failure made the power actor's whole tick entry fail (its queued miner
+    /// callbacks ran one epoch late)
+    #[serde(default)]
+    pub power_tick_lost: bool,
     /// deadline -> epoch at which the window of an accepted bad-proof PoSt closes (not yet disputed)
     pub bad_posts: BTreeMap<u64, i64>,
 }
@@ -106,6 +117,9 @@ pub struct LifeCfg {
     pub horizon: Option<i64>,
     /// 64 GiB sectors (FIL-scale pledges and penalties) instead of 2 KiB ones
     pub big: bool,
+    /// fault class F2: every nested send of every end-of-epoch tick is failed (one at a time);
+    /// afterwards the walk continues in recovery mode (default behaviour only, generic oracles)
+    pub tick_faults: bool,
 }
 
 pub struct W {
@@ -321,6 +335,33 @@ impl Life {
         let vb = view(vm, w.cast.bm).unwrap();
         let o = self.cfg.oracles;
         let r = (|| -> Result<(), String> {
+            if m.recovery {
+                // after an injected failure inside a tick: everything that needs no sector model
+                self.check_network(vm)?;
+                check_bookkeeping(&v, &vm.policy)?;
+                check_bookkeeping(&vb, &vm.policy)?;
+                if o.c03 {
+                    check_ledgers(&v)?;
+                    check_ledgers(&vb)?;
+                    if let Some(k) = self.check_pledge_total(w, &[v.clone(), vb.clone()])? {
+                        known.push(k);
+                    }
+                }
+                // a miner whose callback was failed has lost its claim and its cron by design
+                let with_claim: Vec<MinerView> = [v.clone(), vb.clone()].into_iter().filter(|x| x.claim.is_some()).collect();
+                if m.recovery_settled {
+                    match self.check_cron_schedule(w, &with_claim) {
+                        Ok(Some(k)) => known.push(k),
+                        Ok(None) => {}
+                        Err(e) if m.power_tick_lost && self.cfg.known_open.contains("KF-7") => {
+                            let _ = e;
+                            known.push(Known { id: "KF-7".into(), text: "a proving-deadline callback that runs one epoch late (the power actor's tick entry failed on the last epoch of the deadline) derives the deadline to close from the current epoch instead of the recorded one: the ended deadline is never closed and the miner's recorded deadline stays off schedule".into() });
+                        }
+                        Err(e) => return Err(e),
+                    }
+                }
+                return Ok(());
+            }
             if o.c02 {
                 self.check_power(&v, m)?;
                 self.check_network(vm)?;
@@ -546,6 +587,9 @@ impl Life {
             sectors: ever.iter().map(|s| (*s, SecM { proven: false, faulty: false, recovering: false, gone: false, faulty_since: None })).collect(),
             ever,
             frozen: false,
+            recovery: false,
+            recovery_settled: false,
+            power_tick_lost: false,
             bad_posts: BTreeMap::new(),
         };
         if name.starts_with("bad-post-closed") {
@@ -705,7 +749,7 @@ impl Scenario for Life {
             return vec![];
         }
         let mut v = vec![Act::Advance];
-        if m.devs_left == 0 || m.frozen {
+        if m.devs_left == 0 || m.frozen || m.recovery {
             return v;
         }
         w.vm.restore(&s.snap);
@@ -811,7 +855,74 @@ impl Scenario for Life {
                     checkpoint(&m, "after the default PoSt", &mut viol, &mut known);
                 }
                 let pre = view(vm, c.m).unwrap();
+                if self.cfg.tick_faults {
+                    vm.set_fault_plan(faults);
+                }
                 let r = vm.tick();
+                if self.cfg.tick_faults && std::env::var("MC_DEBUG_TICK").ok().and_then(|e| e.parse::<i64>().ok()) == Some(now) {
+                    eprintln!("TICK at {now} (faults {faults:?}):\n{}", r.tree());
+                }
+                if self.cfg.tick_faults && faults.is_empty() && !m.recovery {
+                    sites = r.flat().iter().filter_map(|i| i.send_index).collect();
+                }
+                if self.cfg.tick_faults && !faults.is_empty() {
+                    // F2: one nested send of this tick was failed. The tick itself must succeed,
+                    // nothing may panic or report broken balance invariants, and nothing may
+                    // fail except the failed send and the calls that contain it.
+                    if let Err(e) = all_ok(&r) {
+                        bad!(e);
+                    }
+                    if !r.ok() {
+                        bad!(format!("cron tick at epoch {now} failed as a whole after one nested send was failed: {}", r.tree()));
+                    }
+                    fn unexplained<'a>(i: &'a Inv, out: &mut Vec<&'a Inv>) -> bool {
+                        let mut contains = i.injected;
+                        for sub in &i.subs {
+                            contains |= unexplained(sub, out);
+                        }
+                        if !i.ok() && !contains {
+                            out.push(i);
+                        }
+                        contains
+                    }
+                    let mut un = vec![];
+                    let hit = unexplained(&r, &mut un);
+                    if let Some(i) = un.first() {
+                        bad!(format!("cron tick at epoch {now}: {} failed although the injected failure was elsewhere\n{}", i.brief(), r.tree()));
+                    }
+                    // the power actor tolerates a failing miner callback (it drops that miner's
+                    // claim and goes on): its own tick entry must then succeed
+                    fn beneath_callback(i: &Inv, inside: bool) -> bool {
+                        let inside = inside || (i.from == 4 && i.method == fil_actor_miner::Method::OnDeferredCronEvent as u64);
+                        if i.injected && inside {
+                            return true;
+                        }
+                        i.subs.iter().any(|sub| beneath_callback(sub, inside))
+                    }
+                    if beneath_callback(&r, false) {
+                        for i in r.flat() {
+                            if !i.ok() && i.to_id() == Some(4) && i.method == fil_actor_power::Method::OnEpochTickEnd as u64 {
+                                bad!(format!("cron tick at epoch {now}: the power actor's tick entry failed because one miner callback (or a send beneath it) failed\n{}", r.tree()));
+                            }
+                        }
+                    }
+                    outcome = if hit { "one nested send failed" } else { "planned send not reached" };
+                    m.recovery = true;
+                    m.power_tick_lost = r.flat().iter().any(|i| !i.ok() && i.to_id() == Some(4) && i.method == fil_actor_power::Method::OnEpochTickEnd as u64);
+                    m.recovery_settled = false;
+                    m.devs_left = 0;
+                    m.end = std::cmp::min(m.end, now + 27);
+                } else if m.recovery {
+                    for i in r.flat() {
+                        if !i.ok() {
+                            bad!(format!("cron tick at epoch {now} (after an earlier injected failure): {} failed\n{}", i.brief(), r.tree()));
+                        }
+                    }
+                    if let Err(e) = all_ok(&r) {
+                        bad!(e);
+                    }
+                    m.recovery_settled = true;
+                } else {
                 if std::env::var("MC_DEBUG_TICK").ok().and_then(|e| e.parse::<i64>().ok()) == Some(now) {
                     eprintln!("TICK at {now}:\n{}", r.tree());
                 }
@@ -845,6 +956,7 @@ impl Scenario for Life {
                 }
                 if m.suppressed.is_some() && now >= di.last() {
                     m.suppressed = None;
+                }
                 }
             }
             Act::SkipPost => {
@@ -1236,6 +1348,10 @@ impl Scenario for Life {
         // sectors removed from partitions by compaction disappear from the view: the model keeps
         // them as gone
         checkpoint(&m, &format!("after {a:?} at epoch {now}"), &mut viol, &mut known);
+        if known.iter().any(|k| k.id == "KF-7") {
+            // the state is known to be off schedule from here on: not explored further
+            m.end = now;
+        }
         let mut st = Step::new(VS { snap: vm.snapshot(), m }, outcome);
         st.agreed = 1;
         st.sites = sites;
@@ -1251,6 +1367,7 @@ impl Scenario for Life {
                "config": self.cfg.name, "horizon_periods": self.cfg.periods, "deviation_budget": self.cfg.devs,
                "bases": self.cfg.bases, "sector_sets": self.cfg.sector_sets,
                "default": "submit the full PoSt when a window opens; otherwise let one epoch pass (real cron every epoch)",
+               "fault_class_F2_every_nested_send_of_a_tick": self.cfg.tick_faults,
                "deviations": ["skip PoSt", "PoSt with skipped sets", "bad-proof PoSt", "late/repeated PoSt", "declare faults", "declare recovered", "terminate", "dispute", "compact partitions", "onboard (new / reused number)", "fault declaration with wrong partition"],
                "oracles": format!("{:?}", self.cfg.oracles)})
     }
